@@ -443,13 +443,15 @@ func (res *CheckResult) checkSource(source parser.Source) {
 
 		if source.Bounded == nil {
 			res.unboundedAccountInSend = source.Address
-		}
 
-		if res.unboundedSend {
-			res.Diagnostics = append(res.Diagnostics, Diagnostic{
-				Range: source.Address.GetRange(),
-				Kind:  &InvalidUnboundedAccount{},
-			})
+			// only an unbounded overdraft is forbidden when sending all:
+			// a bounded one gives balance + overdraft
+			if res.unboundedSend {
+				res.Diagnostics = append(res.Diagnostics, Diagnostic{
+					Range: source.Address.GetRange(),
+					Kind:  &InvalidUnboundedAccount{},
+				})
+			}
 		}
 
 		res.checkExpression(source.Address, TypeAccount)
